@@ -32,7 +32,9 @@ def ref_cursor(op, pos, n, seekpos):
 
 QUICK_PATTERNS = [['first', 'next', 'next', 'prev'], ['last', 'prev', 'next', 'next'], ['first', 'next', 'prev', 'prev'], ['last', 'prev', 'prev', 'next'],
                   ['last', 'prev', 'seek', 'prev'], ['first', 'next', 'seek', 'next'], ['seek', 'prev', 'prev', 'next'], ['seek', 'next', 'prev', 'next'],
-                  ['last', 'seek', 'prev', 'prev'], ['first', 'seek', 'prev', 'next'], ['seek', 'prev', 'seek', 'next'], ['last', 'next'], ['first', 'prev']]
+                  ['last', 'seek', 'prev', 'prev'], ['first', 'seek', 'prev', 'next'], ['seek', 'prev', 'seek', 'next'], ['last', 'next'], ['first', 'prev'],
+                  # absolute repositioning after the cursor has moved
+                  ['first', 'next', 'first', 'next'], ['seek', 'first', 'next'], ['last', 'prev', 'last', 'prev'], ['seek', 'last', 'prev']]
 
 
 def o4_1_merging(mir, tier):
@@ -214,7 +216,7 @@ def o4_3_two_level(mir, tier):
             index.append((ik, mir.mk_struct('BlockHandle', offset=bv(1000 * bi), size=bv(100))))
         S = base_summaries(mir)
         S.update(absiter.summaries(['<BlockIter<InternalKey> as RainDbIterator>::'], w.K))
-        S['BlockReader::iter'] = lambda se, env, pc, r: lib.one(env, absiter.make(se.deref(env, r)['entries']))
+        S['BlockReader::iter'] = lambda se, env, pc, r: lib.one(env, dict(absiter.make(se.deref(env, r)['entries']), pos=0))   # BlockReader::iter starts at index 0
         S['<BlockHandle as TryFrom<&Vec<u8>>>::try_from'] = lambda se, env, pc, v: lib.one(env, Enum('Ok', (se.deref(env, v),)))
         hoff = mir.field('BlockHandle', 'offset')
         def get_block(se, env, pc, tbl, opts, h, blocks=blocks):
@@ -257,7 +259,7 @@ def o4_3_two_level(mir, tier):
             pre += [kle(T, KE[hi])] + ([klt(KE[lo - 1], T)] if lo > 0 else [])       # the target lands in the bad block
             S = base_summaries(mir)
             S.update(absiter.summaries(['<BlockIter<InternalKey> as RainDbIterator>::'], w.K))
-            S['BlockReader::iter'] = lambda se, env, pc, r: lib.one(env, absiter.make(se.deref(env, r)['entries']))
+            S['BlockReader::iter'] = lambda se, env, pc, r: lib.one(env, dict(absiter.make(se.deref(env, r)['entries']), pos=0))   # BlockReader::iter starts at index 0
             S['<BlockHandle as TryFrom<&Vec<u8>>>::try_from'] = lambda se, env, pc, v: lib.one(env, Enum('Ok', (se.deref(env, v),)))
             hoff = mir.field('BlockHandle', 'offset')
             def get_block(se, env, pc, tbl, opts, h, blocks=blocks, bad=bad):
